@@ -51,6 +51,20 @@ CHECKS = {
             'exactness is judged only where no truncation is requested or reported and (for TDVP) where the manifold is complete '
             '(saturated bonds, or two-site TDVP with nearest-neighbour H); under imaginary steps only the direction of the state is '
             'judged; time-dependent engines are compared with the documented first-order product of exponentials', 'DESIGN.md §C14'),
+    'C17': ('exploration', 'round-trip monitors over generated object graphs: generic structural comparator (types, dtypes, values, leg '
+            'structure), test_sanity and dense observables of the loaded objects, and a sharing monitor comparing the partition of '
+            'container slots by object identity before and after',
+            'Graphs of scalars, arrays, masked arrays, dtype, range, nested list/tuple/set/dict (simple and general keys), shared '
+            'references, self-referential containers, objects without a format of their own (Hdf5Exportable subclass, pickle-protocol '
+            'fallback with state / listitems / dictitems) and instances of the tenpy classes offering save_hdf5 (charge info incl. '
+            'dipolar, legs of every kind, pipes, Arrays, all site classes, GroupedSite, finite/segment/infinite/purification/uniform '
+            'MPS, MPO, every lattice class, random and all predefined models by reflection, term classes, TruncationError, Config) go '
+            'through HDF5 with format selection None/blocks/compact/flat, hdf5_io.save/load with .h5/.pkl/.pklz, pickle protocols '
+            '2/4/5 and deepcopy, in the compiled and the pure-Python configuration.',
+            "documented exceptions honoured: tuples inside reference cycles, 'flat' only for plain LegCharges (insufficient for "
+            'blocks), saves that fail loudly (bytes with NUL, classes with __slots__) are not failures of the round trip; cache '
+            'attributes (_mps_sites_cache, _BZ, _reciprocal_basis, UniformMPS._S) are compared through observables instead',
+            'DESIGN.md §C17'),
     'C12': ('exploration', 'dense operator identities evaluated on every configuration of the (finite, exhaustively enumerated) '
             'site-option grid; kron/JW reference for grouped sites; explicit Jordan-Wigner matrices for many-body CAR',
             'Every site class x parameters x conserve option x sort_charge: operators mapped through perm equal the textbook '
